@@ -192,7 +192,12 @@ class TGen:
         if k == "set":
             return "{% set " + r.choice(self.names) + " = " + self.e_any(2) + " %}"
         if k == "setblock":
-            return "{% set " + r.choice(self.names) + " %}" + self.body(d - 1, 2, inloop) + "{% endset %}"
+            flt = ""
+            if r.random() < 0.3:
+                # a filter on the block, sometimes with arguments that are names used nowhere else
+                flt = " | " + r.choice(["upper", "trim", f"replace({self.lit_str()}, {self.e_str(1)})",
+                                        f"default({r.choice(self.names)}|string)"])
+            return "{% set " + r.choice(self.names) + flt + " %}" + self.body(d - 1, 2, inloop) + "{% endset %}"
         if k == "with":
             return ("{% with " + r.choice(self.names) + " = " + self.e_any(1) + " %}" + self.body(d - 1, None, inloop)
                     + "{% endwith %}")
@@ -215,7 +220,8 @@ class TGen:
                 return self.text()
             return "{% call " + self.macro_call() + " %}" + self.body(d - 1, 1, inloop) + "{% endcall %}"
         if k == "filterblock":
-            fl = NEUTRAL_STR_FILTERS[:2] if self.neutral else ["upper", "lower", "trim"]
+            fl = NEUTRAL_STR_FILTERS[:2] if self.neutral else ["upper", "lower", "trim",
+                                                               f"replace({self.lit_str()}, {r.choice(self.names)}|string)"]
             return "{% filter " + r.choice(fl) + " %}" + self.body(d - 1, 2, inloop) + "{% endfilter %}"
         if k == "include":
             self.counter += 1
